@@ -381,6 +381,14 @@ def writer_reuse_across_configs(ctx, b, d):
                 cases.append({"id": len(cases) + 1, "kind": "writer", "lives": True, "input": {"family": "bytes", "len": len(data), "seed": 0, "bytes": data},
                               "opts": dict(base, code=ca, legacy=True, conc=conc), "calls": calls, "seed": 1, "perturb": 0, "poison": False,
                               "ref": refs[(conc, False, ca)], "from": "legacy/%d" % ca, "to": "frame/%d (legacy switched off only)" % ca})
+    # ... two legacy lives in a row before the switch back (what is remembered must not be overwritten by the second)
+    for conc in (1, 4):
+        for ca in (4, 5):
+            calls = [{"op": "write", "n": 100}, {"op": "close"}, {"op": "reset"}, {"op": "write", "n": len(first) - 100}, {"op": "close"}, {"op": "reset"},
+                     {"op": "apply", "n": 100}, {"op": "write", "n": len(second)}, {"op": "close"}]
+            cases.append({"id": len(cases) + 1, "kind": "writer", "lives": True, "input": {"family": "bytes", "len": len(first) + len(second), "seed": 0, "bytes": first + second},
+                          "opts": dict(base, code=ca, legacy=True, conc=conc), "calls": calls, "seed": 1, "perturb": 0, "poison": False,
+                          "ref": refs[(conc, False, ca)], "from": "legacy/%d, legacy/%d" % (ca, ca), "to": "frame/%d (legacy switched off only)" % ca})
     # ... and the other options withdrawn or set again: content size, block checksum, content checksum
     toggles = {"size": (200, 201), "bcs": (210, 211), "ccs": (220, 221)}
     for conc in (1, 4):
